@@ -23,6 +23,19 @@ def run(chk, tier, proof_ok):
     full = tier == 'thorough' or not proof_ok or bool(divs) or bool(errs)
     cases = realsearch.gen_cases(chk.seed * 17 + 2, 500 if full else 60, kinds=('pt',), allow_saveload=True,
                                  ntemps_choices=(2, 3, 4, 5, 6), max_ops=9)
+    # directed: clears at every residue of the swap interval, followed by several sweeps
+    import random
+    import plumbing
+    drng = random.Random(chk.seed * 43 + 7)
+    for s_int in (2, 3, 4, 5):
+        for res in range(s_int):
+            if not full and drng.random() < 0.5:
+                continue
+            c = plumbing.gen_case(drng, 'clear-res', kinds=('pt',), allow_saveload=False, ntemps_choices=(3, 4))
+            c.swap_interval = s_int
+            c.ops = [('run', s_int + res), ('clear',), ('run', 3 * s_int + 1), ('dump',), ('clear',),
+                     ('run', 2 * s_int), ('dump',)]
+            cases.append(c)
     findings, nsw = [], 0
     for c in cases:
         f, k = realsearch.sweep_findings(c)
